@@ -261,9 +261,17 @@ class C01(Check):
             if aborted:
                 name = type(ctx.error).__name__
                 cnt[f"aborted_{name}"] = 1
-                if name in ("AgentAdditionError", "AgentRemovalError", "KeyError"):
+                in_delivery = False
+                tb = ctx.error.__traceback__
+                while tb is not None:
+                    fn = tb.tb_frame.f_code.co_filename.replace("\\", "/")
+                    if "/resonaate/data/events/" in fn or tb.tb_frame.f_code.co_name == "handleRelevantEvents":
+                        in_delivery = True
+                    tb = tb.tb_next
+                if in_delivery or name in ("AgentAdditionError", "AgentRemovalError", "KeyError"):
                     viol.append({"clause": "run-aborted-by-event-delivery", "key": name,
-                                 "detail": f"run aborted in step {probes.STATE['step']} with {name}: {ctx.error} (all generated events are valid: a duplicated or misdirected delivery)"})
+                                 "detail": f"run aborted in step {probes.STATE['step']} with {name}: {str(ctx.error)[:300]} (all generated events are valid: "
+                                           f"{'the handler of a delivered event failed' if in_delivery else 'a duplicated or misdirected delivery'})"})
 
             judged = 0
             for (eid, etype, _sid), ev in zip(dbrows, evs):
